@@ -514,3 +514,46 @@ def replay_torn_read(inputs, obl):
         if not had_open:
             fcm.__dict__.pop('open', None)
         shutil.rmtree(d, ignore_errors=True)
+
+
+def failed_update_rows():
+    """(bounded) "an update that reports failure has no effect": one injected OSError in the writer (before anything touches the disk),
+    then the same operations again without the fault (-> list of (name, ok, detail))"""
+    import builtins
+    import klongpy.db.file_cache as fcm
+    from klongpy.db.file_cache import FileCache
+    out = []
+    d = tempfile.mkdtemp(prefix='c18_fail_')
+    had_open = 'open' in fcm.__dict__
+    try:
+        c = FileCache(max_memory=1000, root_path=d)
+        with open(os.path.join(d, 'f'), 'wb') as fh:
+            fh.write(b'initial')
+        fault = [True]
+
+        def faulty_open(path, mode='r', *a, **kw):
+            if 'w' in mode and fault[0]:
+                fault[0] = False
+                raise OSError(5, 'Input/output error (injected once)')
+            return builtins.open(path, mode, *a, **kw)
+        fcm.open = faulty_open
+        first = _call(c.update_file, 'f', b'v1')
+        out.append(('failing-update-reports-failure', isinstance(first, BaseException) or first is False,
+                    f"update(f, v1) with the write failing: {first!r}"))
+        g = _call(c.get_file, 'f')
+        out.append(('get-after-failed-update', g == b'initial',
+                    f"get(f) after the failed update returned {g!r} (the disk still holds b'initial')"))
+        second = _call(c.update_file, 'f', b'v2')
+        g2 = _call(c.get_file, 'f')
+        disk = builtins.open(os.path.join(d, 'f'), 'rb').read()
+        out.append(('update-after-failed-update', second is True and g2 == b'v2' and disk == b'v2',
+                    f"a later update(f, v2) without any fault: returned {second!r}, get(f) {g2!r}, disk {disk!r}"))
+        try:
+            c.executor.shutdown(wait=False)
+        except Exception:
+            pass
+    finally:
+        if not had_open:
+            fcm.__dict__.pop('open', None)
+        shutil.rmtree(d, ignore_errors=True)
+    return out
